@@ -538,9 +538,14 @@ def rule_r6(facts, col, cg=None):
     cg = cg or CallGraph(facts)
     locking = locking_fns(facts, cg)
     derived = used_derived_fns(facts)
+    vbodies = []
     for body in verdict_functions(facts):
         if body.self_adt not in ("stream::ReadStream", "stream::WriteStream"):
             continue
+        for b2 in [body] + adt_helpers(facts, body):      # the amount may be read in a private helper (`self.drained()`)
+            if b2 not in vbodies:
+                vbodies.append(b2)
+    for body in vbodies:
         for bb, t in body.calls():
             qs = [q for q in Body.callee_qs(t) if q in locking and q.startswith("circular_buffer::")]
             if not qs:
